@@ -124,6 +124,8 @@ def main():
     import props
     prop = args.prop
     spec = props.REGISTRY[prop]
+    if args.replay:
+        return replay_file(prop, args.replay)
     t0 = time.time()
     tier = args.tier
     # 1+2 prove
@@ -176,6 +178,39 @@ def main():
             "smallest_disagreement": result.disagreements[0] if result.disagreements else None})
         violations.append({"what": broken[0], "replay": replay, "found_input": False})
     finish(prop, tier, seed, t0, nobl, ndis, pf, axioms, result, violations)
+
+
+def replay_file(prop, path):
+    """re-run the input of a replay file against the CURRENT tree and show what the implementation (and,
+    for evaluator cases, the model) does with it; informational: exit 0 unless the build fails"""
+    import props
+    j = json.load(open(path if os.path.isabs(path) else os.path.join(VERIF, path)))
+    okh, hout = vlib.build_harness()
+    okc, cout = vlib.build_cli()
+    okl, lout = vlib.build_lean(["guard_model"])
+    if not (okh and okc and okl):
+        print("build failed")
+        sys.exit(2)
+    print("replay of %s for %s: %s" % (path, prop, j.get("what", j.get("kind", ""))))
+    if j.get("argv"):
+        files = dict(j.get("files") or {})
+        for k, h in (j.get("files_hex") or {}).items():
+            files[k] = bytes.fromhex(h)
+        stdin = bytes.fromhex(j["stdin_hex"]) if j.get("stdin_hex") else b""
+        o = vlib.run_cli(j["argv"], files=files, stdin=stdin, timeout=60)
+        print("real binary: argv=%s\nexit=%s\n--- stdout\n%s\n--- stderr\n%s" % (j["argv"], o["code"], o["stdout"][:4000], o["stderr"][:2000]))
+    if isinstance(j.get("rules"), str) and isinstance(j.get("data"), str) and j.get("data", "").strip():
+        ctx = props.Ctx(prop, "quick", 1)
+        try:
+            r = vlib.correspond([{"rules": j["rules"], "data": j["data"]}], ctx.hp, ctx.mp, detail=True)[0]
+        finally:
+            ctx.close()
+        print("library run_checks: verdict=%s\nimplementation: %s\nmodel: %s" % (
+            r["verdict"], json.dumps({k: v for k, v in (r.get("impl") or {}).items() if k != "tree"})[:1500],
+            json.dumps({k: v for k, v in (r.get("model") or {}).items() if k != "tree"})[:1500]))
+    for k in ("broken", "smallest_disagreement"):
+        if j.get(k):
+            print("%s: %s" % (k, json.dumps(j[k])[:3000]))
 
 
 def finish(prop, tier, seed, t0, nobl, ndis, pf, axioms, result, violations):
